@@ -30,11 +30,11 @@ Record sq := mkSq {
   q_closed : bool;                 (* batches() returned or raised *)
   q_fut : list (N * bool);         (* settled futures: ok? *)
   q_pushed : list entry;           (* ghost: everything pushed, in order *)
-  q_delivered : list entry         (* ghost: everything taken by the consumer (delivered, or the
-                                      terminal entry that ended the iteration), in order *)
+  q_delivered : list entry;        (* ghost: everything delivered in batches, in order *)
+  q_term : list entry              (* ghost: the terminal entry that ended the iteration, if any *)
 }.
 
-Definition sq_init : sq := mkSq [] None false false false [] [] [].
+Definition sq_init : sq := mkSq [] None false false false [] [] [] [].
 
 Fixpoint fget (k : N) (l : list (N * bool)) : fstatus :=
   match l with
@@ -69,20 +69,20 @@ Definition try_pull (s : sq) : sq * option sqout :=
     end in
   let deliver (e : entry) :=
     let '(batch, held, rest', stp) := gather (q_fut s) rest [e] in
-    (mkSq rest' held (q_stopped s || stp) false false (q_fut s) (q_pushed s) (q_delivered s ++ batch),
+    (mkSq rest' held (q_stopped s || stp) false false (q_fut s) (q_pushed s) (q_delivered s ++ batch) (q_term s),
      Some (OBatch batch)) in
   let blocked (h : option entry) (r : list entry) :=
-    (mkSq r h (q_stopped s) true false (q_fut s) (q_pushed s) (q_delivered s), None) in
+    (mkSq r h (q_stopped s) true false (q_fut s) (q_pushed s) (q_delivered s) (q_term s), None) in
   match head with
   | None => blocked None rest
   | Some e =>
       match e with
-      | EEnd => (mkSq rest None true false true (q_fut s) (q_pushed s) (q_delivered s ++ [e]), Some OFinished)
-      | EErr => (mkSq rest None (q_stopped s) false true (q_fut s) (q_pushed s) (q_delivered s ++ [e]), Some ORaised)
+      | EEnd => (mkSq rest None true false true (q_fut s) (q_pushed s) (q_delivered s) [e], Some OFinished)
+      | EErr => (mkSq rest None (q_stopped s) false true (q_fut s) (q_pushed s) (q_delivered s) [e], Some ORaised)
       | EFut k =>
           match fget k (q_fut s) with
           | FPending => blocked (Some e) rest
-          | FFail => (mkSq rest None (q_stopped s) false true (q_fut s) (q_pushed s) (q_delivered s ++ [e]), Some ORaised)
+          | FFail => (mkSq rest None (q_stopped s) false true (q_fut s) (q_pushed s) (q_delivered s) [e], Some ORaised)
           | FOk => deliver e
           end
       | EVal _ => deliver e
@@ -101,14 +101,14 @@ Definition sq_step (s : sq) (op : sqop) : sq * list sqout :=
   match op with
   | OpPush e =>
       resume (mkSq (q_entries s ++ [e]) (q_held s) (q_stopped s) (q_waiting s) (q_closed s) (q_fut s)
-                   (q_pushed s ++ [e]) (q_delivered s))
+                   (q_pushed s ++ [e]) (q_delivered s) (q_term s))
   | OpSettle k ok =>
       resume (mkSq (q_entries s) (q_held s) (q_stopped s) (q_waiting s) (q_closed s) (q_fut s ++ [(k, ok)])
-                   (q_pushed s) (q_delivered s))
+                   (q_pushed s) (q_delivered s) (q_term s))
   | OpPull =>
       if q_closed s || q_waiting s then (s, [])
       else resume (mkSq (q_entries s) (q_held s) (q_stopped s) true (q_closed s) (q_fut s)
-                        (q_pushed s) (q_delivered s))
+                        (q_pushed s) (q_delivered s) (q_term s))
   end.
 
 Fixpoint sq_run (s : sq) (ops : list sqop) : sq * list sqout :=
@@ -121,3 +121,6 @@ Fixpoint sq_run (s : sq) (ops : list sqop) : sq * list sqout :=
 (* what the queue still holds, in order *)
 Definition sq_contents (s : sq) : list entry :=
   match q_held s with Some e => e :: q_entries s | None => q_entries s end.
+
+Definition out_entries (o : sqout) : list entry :=
+  match o with OBatch es => es | _ => [] end.
